@@ -8,6 +8,7 @@
    (harness/c13.go).  Six panics found this way were repaired (known_findings.txt). *)
 From InfluxQL Require Import Base.Prelude Lex.Token Ast.Ast Ast.GroupBy Ast.ColumnNames
   Proofs.GroupByProofs Proofs.ColumnNamesProofs.
+From InfluxQL Require Import Base.Oracles Sem.RewriteFields Proofs.RewriteFieldsTotal.
 
 Theorem C13_group_by_interval : forall q s, Ast.GroupBy.group_by_interval q <> Crash s.
 Proof. exact group_by_interval_total. Qed.
@@ -36,3 +37,9 @@ Example C13_example :
   group_by_offset (sel [] [Call (ts "time") [DurationLit 0; DurationLit 1000000000]]) = Ok 0 /\
   normalize [Call (ts "time") []; Call (ts "time") [VarRef (ts "x") DUnknown]; VarRef (ts "h") DUnknown] = Ok (0, [ts "h"]).
 Proof. vm_compute. repeat split. Qed.
+
+(* RewriteFields returns a statement or an error for every statement, every FieldMapper and every regexp oracle: no
+   crash site and no fuel (the recursion is structural in the nested sources) *)
+Theorem C13_rewrite_fields : forall orc mt fd q, settled (rewrite_fields orc mt fd q).
+Proof. exact rewrite_fields_total. Qed.
+Print Assumptions C13_rewrite_fields.
